@@ -137,6 +137,7 @@ O_R == { OSeq, OPar, OLoop(Let("a"), FALSE), OLoop(I3, TRUE), OSub(I1), OSub(Num
 H_T == { Hdr(<<DLet("a", I1)>>, <<DReg("q", NumI(5))>>, <<"mypulses.sub">>, <<>>) }
 T_T == { G("g", <<QI("q", 0)>>), G("g", <<QI("q", 1)>>), G("g", <<QI("q", 2)>>), G("h", <<QI("q", 3), Let("a")>>) }
 O_T == { OSeq, OPar, OLoop(I2, FALSE), OSub(I1) }
+O_TD == { OSeq, OPar }          \* deep alternating nestings (TLC simulation)
 
 \* ---------------------------------------------------------------- C17: programs expressible in all three front ends
 H_F == { Hdr(<<DLet("a", I2), DLet("__r0", I3), DLet("__c0", I1)>>, <<DReg("q", Let("__r0"))>>, <<>>, <<>>) }
@@ -156,12 +157,15 @@ H_V == { Hdr(VBase, <<VReg, DSlice("r", "q", I1, I3, None), DIndex("s", "q", I2)
          Hdr(VBase, <<VReg, DSlice("r", "q", Let("a"), Let("k"), None)>>, <<>>, ExactGates),  \* valid unless overridden
          Hdr(VBase \o <<DLet("a", I2)>>, <<VReg>>, <<>>, ExactGates),                         \* duplicate let
          Hdr(VBase, <<VReg, DIndex("a", "q", I0)>>, <<>>, ExactGates),                        \* let / alias clash
-         Hdr(VBase, <<DReg("q", Let("k")), DIndex("s", "q", I2)>>, <<>>, ExactGates) }        \* let-sized register
+         Hdr(VBase, <<DReg("q", Let("k")), DIndex("s", "q", I2)>>, <<>>, ExactGates),         \* let-sized register
+         Hdr(VBase, <<VReg, DSlice("r", "q", I2, I0, NumI(-1))>>, <<>>, ExactGates),          \* descending slice (2 elements)
+         Hdr(VBase, <<VReg, DSlice("r", "q", I0, I3, I2)>>, <<>>, ExactGates) }               \* strided slice (2 elements)
 M_V == << MD("m", <<"x", "p">>, {"seq"}, { G("X", <<Qb("q", Par("p"))>>), G("R", <<Par("x"), Par("p")>>) }, {}, 1) >>
 T_V == { G("X", <<QI("q", 0)>>), G("X", <<QI("q", 2)>>), G("X", <<QI("q", 3)>>), G("X", <<Qb("q", NumI(-1))>>),
          G("X", <<Qb("q", Let("k"))>>), G("X", <<Qb("q", Let("a"))>>), G("m", <<QI("q", 2), I3>>), G("m", <<QI("q", 0), I1>>),
          G("R", <<QI("q", 0), F15>>), G("X", <<Qb("a", I0)>>), G("X", <<Let("u")>>), G("U", <<QI("q", 0)>>),
-         G("X", <<QI("q", 0), QI("q", 1)>>), G("R", <<QI("q", 1), Let("a")>>) }
+         G("X", <<QI("q", 0), QI("q", 1)>>), G("R", <<QI("q", 1), Let("a")>>),
+         G("X", <<QI("r", 1)>>), G("X", <<QI("r", 2)>>) }
 O_V == { OSub(I1) }
 
 \* ---------------------------------------------------------------- C06: alias chains (two links over a register of size 3..4)
